@@ -35,6 +35,12 @@ SPEC = {
 OPS = ["&", "|", "^", "-"]
 
 
+def _cl(seq):
+    """Coordinate list in a form whose equality cannot be fooled by the library's ANY wildcard
+    (ANY == x is True for every x): exact reprs of ints / tuples of ints."""
+    return [repr(c) for c in seq]
+
+
 # ------------------------------------------------------------------------------------------
 # generation
 # ------------------------------------------------------------------------------------------
@@ -258,11 +264,11 @@ def _run_pair(case, mon):
         got = seqs[0]
         mon.count("yields_checked", len(got))
         any_yield = any_yield or bool(got)
-        mon.check([c for c, _ in got] == [e[0] for e in exp], f"{what}:coords",
+        mon.check(_cl(c for c, _ in got) == _cl(e[0] for e in exp), f"{what}:coords",
                   f"{what} yielded coordinates {[c for c, _ in got]} expected {[e[0] for e in exp]}")
-        mon.check([c for c, _ in seqs[1]] == [c for c, _ in got], f"{what}:reiteration",
+        mon.check(_cl(c for c, _ in seqs[1]) == _cl(c for c, _ in got), f"{what}:reiteration",
                   f"second traversal of {what} yielded {[c for c, _ in seqs[1]]} after {[c for c, _ in got]}")
-        if [c for c, _ in got] != [e[0] for e in exp]:
+        if _cl(c for c, _ in got) != _cl(e[0] for e in exp):
             continue
         fresh = _Fresh(mon, ids, d, what)
         for trav in seqs:
@@ -348,8 +354,8 @@ def _run_nary(case, mon):
         return
     got = seqs[0]
     mon.count("yields_checked", len(got))
-    ok = mon.check([c for c, _ in got] == exp, f"{op}:coords", f"{what} yielded {[c for c, _ in got]} expected {exp}")
-    mon.check([c for c, _ in seqs[1]] == [c for c, _ in got], f"{op}:reiteration", f"{what}: second traversal differs")
+    ok = mon.check(_cl(c for c, _ in got) == _cl(exp), f"{op}:coords", f"{what} yielded {[c for c, _ in got]} expected {exp}")
+    mon.check(_cl(c for c, _ in seqs[1]) == _cl(c for c, _ in got), f"{op}:reiteration", f"{what}: second traversal differs")
     if ok:
         fresh = _Fresh(mon, ids, d, what)
         for c, p in got:
@@ -413,7 +419,7 @@ def _run_tuple(case, mon):
                       f"{what} raised {type(e).__name__}: {e}")
         return
     mon.count("yields_checked", len(got))
-    if mon.check([c for c, _ in got] == [e[0] for e in exp], "a&b:tuple:coords",
+    if mon.check(_cl(c for c, _ in got) == _cl(e[0] for e in exp), "a&b:tuple:coords",
                  f"{what} yielded {[c for c, _ in got]} expected {[e[0] for e in exp]}"):
         for (c, p), (_, oa, ob) in zip(got, exp):
             v = unbox(p)
@@ -428,7 +434,7 @@ def _run_tuple(case, mon):
                 mon.violation(f"a{op}b:tuple:raised:{type(e).__name__}", f"a{op}b with tuple coordinates raised {e!r}")
                 continue
             e = [x[0] for x in _expected(op, pa, pb)]
-            mon.check([c for c, _ in g] == e, f"a{op}b:tuple:coords", f"a{op}b tuple coords {[c for c, _ in g]} expected {e}")
+            mon.check(_cl(c for c, _ in g) == _cl(e), f"a{op}b:tuple:coords", f"a{op}b tuple coords {[c for c, _ in g]} expected {e}")
     mon.check(before == (snap(a), snap(b)), "tuple:operand-modified", f"{what} changed an operand")
     if pa and pb and got:
         mon.nontrivial()
